@@ -1,6 +1,9 @@
-"""C25 -- badly prepared atoms behave as absent: the permutation / data-flow clauses of emu-mps
-(which sites, drives and couplings the bad-atom filter removes)."""
-from contracts import frame_scan, mps_dataflow as D, mps_dataflow_sites as S
+"""C25 -- badly prepared atoms behave as absent, on both backends: which sites, drives and couplings the
+bad-atom filter of emu-mps removes (permutation / data-flow clauses), the dark-site padding of the
+reduced state and Hamiltonian for the observables (any physical dimension: leakage), the zeroing of
+drives and couplings in emu-sv, and two clauses that fail on the pinned tree (open known findings
+F24, F25)."""
+from contracts import dark_padding as DP, frame_scan, mps_dataflow as D, mps_dataflow_sites as S, sv_dark as SV
 
 ID = "C25"
 LEVEL = "proof"
@@ -14,36 +17,103 @@ def extra_checks(tier, seed, repo_root):
 def build(reg):
     D.register(reg, "C25")
     S.register(reg, "C25")
+    pad = DP.register(reg, "C25")
+    sv = SV.register(reg, "C25")
     M = D.IMPL
     return dict(
+        lemmas=DP.LEMMAS,
         targets=[f"{M}:MPSBackendImpl.init_dark_qubits", f"{M}:MPSBackendImpl.init_dark_qubits[N=4]",
                  f"{M}:MPSBackendImpl._get_interaction_matrix[filter]",
-                 f"{M}:MPSBackendImpl.fill_results[filter]"],
+                 f"{M}:MPSBackendImpl.fill_results[filter]"] + pad + sv,
         explanation=(
-            "Ghost convention: MPS site k holds register atom perm[k]; the filter is one Boolean per SITE.  "
+            "emu-mps.  Ghost convention: MPS site k holds register atom perm[k]; the filter is one Boolean per SITE.  "
             "Proved for all N, T, permutations and bad-atom masks: filter_site[k] == well_prepared[perm[k]] "
             "(no filter without state-preparation error); qubit_count is the number of well-prepared atoms; "
             "the reduced drives are, in order, those of the surviving sites, i.e. of well-prepared atoms only, "
             "each with its own register drive; the reduced interaction matrix is J[atom(a), atom(b)] over the "
-            "surviving sites; fill_results pads state and Hamiltonian with this very (per-site) filter."),
+            "surviving sites; fill_results pads state and Hamiltonian with this very (per-site) filter.  "
+            "Padding (contracts/dark_padding.py), for every number of sites, every mask and every physical dimension "
+            "d (MPO: d = 2 and d = 3): extended_mps_factors / extended_mpo_factors return one factor per position; the "
+            "k-th True position holds the k-th given factor itself; every False position holds a new factor of "
+            "physical dimension d that is |0> (level index 0) (x) identity on the bond (MPO: identity on all d levels "
+            "(x) identity on the bond); bond dimensions chain and both ends are 1; AssertionError exactly when the "
+            "number of factors differs from the number of True entries, no IndexError.  get_extended_site_index "
+            "returns the site with exactly `centre` well-prepared sites before it.  fill_results[padded state]: with a "
+            "valid reduced state / Hamiltonian of physical dimension dim in {2, 3} every validity check of "
+            "MPS.__init__ / MPO.__init__ holds for the padded lists (the AssertionError of the pinned tree with a "
+            "leakage level), dark sites hold the ground state of the state's dimension, the centre is the site of the "
+            "reduced centre.  MPS.make: ValueError exactly for fewer than 2 sites, else one |0> factor per site.  "
+            "init_initial_state without a given state builds the ground state of the reduced chain and must not "
+            "raise for any mask: fails exactly for fewer than 2 well-prepared atoms (open known finding F25).  "
+            "emu-sv (contracts/sv_dark.py; its attribute `well_prepared_qubits_filter` holds the BAD mask): "
+            "init_dark_qubits zeroes omega/delta/phi[:, b] at every step and row and column b of "
+            "interaction_matrix(t) at every t for every bad atom b, every other entry is unchanged; one evolution "
+            "step hands the stepper zero drives for a bad atom; `no jump operator acts on a bad atom` fails exactly "
+            "when the sequence has Lindblad operators and the atom is bad (open known finding F24)."),
         not_decided=[
             "that the remaining atoms evolve numerically as in the sequence without the bad atoms (follows from the "
-            "reduced drives/couplings proved here only modulo the propagator, C02)",
-            "extended_mps_factors / extended_mpo_factors / get_extended_site_index themselves (|g> and identity "
-            "factors exactly at the False positions, matching bond dimensions): not reached in this work package; "
-            "fill_results is proved to hand them the per-site filter",
-            "all-but-one bad atoms: MPS.make(1) raises ValueError although progress() has a one-qubit branch "
-            "(DESIGN section 6, defect 7, second half) and all atoms bad: not a permutation clause, not covered here",
-            "emu-sv init_dark_qubits (zeroed drive columns and interaction rows/columns): not covered here",
-            "leakage (dim = 3): eigenstates are fixed to ['r', 'g'] in these contracts",
+            "reduced drives/couplings proved here only modulo the propagator, C02); the native falsifier compares "
+            "occupation, energy and correlation matrix of small runs (2 and 3 levels, ordering on/off, both backends)",
+            "extended_mpo_factors for physical dimensions other than 2 and 3 (the loop over the levels is unrolled)",
+            "emu-mps with a given initial state and state-preparation errors (NotImplementedError by design)",
+            "emu-sv: that a density matrix / state vector built by make() starts every atom in |g> (C12) and that "
+            "RydbergLindbladian / RydbergHamiltonian apply exactly the terms they are handed (C06)",
         ],
         trusted=[
             "torch semantics of a read through a 1-d boolean mask: gather through the increasing enumeration of the "
-            "True positions (pyvc/maskidx.py, A3)",
-            "well_prepared_qubits_filter is written only by init_dark_qubits (frame scan)",
+            "True positions (pyvc/maskidx.py, A3); torch.where(mask)[0] is that enumeration",
+            "well_prepared_qubits_filter is written only by init_dark_qubits (frame scan, emu-mps); in emu-sv the drives, "
+            "interaction_matrix and the filter are written only in __init__ and init_dark_qubits (read)",
             "the drives entering init_dark_qubits are in site order (C02: __init__[drives])",
+            "the two counts of True entries used in the contracts agree: mask_count (init_dark_qubits/post#2) and "
+            "true_before(filter, N) (padding); the induction principle behind lemma count_monotone",
+            "fill_results[padded state] assumes the reduced state / Hamiltonian valid (chain, outer bonds 1, physical "
+            "dimension dim, one factor per well-prepared site, >= 2 factors): MPS.make / make_H build them so and the "
+            "evolution keeps shapes chained (C10); scalar * state keeps the factor shapes (C11)",
+            "the validity checks of MPS.__init__ / MPO.__init__ are transcribed and bound by text (the model refuses if "
+            "the constructors' asserts change)",
+            "RydbergLindbladian applies every operator of the list it is given to every qubit (emu_sv/lindblad_operator.py "
+            "h_eff / __matmul__, read): the number of jump operators on an atom is the length of the list handed to the stepper",
         ],
         bounded=["fill_results: two observables, each due or not (4 cases)",
                  "init_dark_qubits[N=4] repeats the filter clause at N = 4 only to obtain a concrete counter-model "
-                 "on a broken tree"],
+                 "on a broken tree",
+                 "extended_mpo_factors: physical dimension 2 and 3 (all that emu-mps has); fill_results[padded state]: dim in {2, 3}"],
     )
+
+
+# negative controls (thorough tier): (name, file, old text, new text)
+CONTROLS = [
+    ('padding: dark MPS sites get physical dimension 2 whatever the state (the pinned tree)',
+     'emu_mps/utils.py', '    dim = mps_factors[0].shape[1] if len(mps_factors) > 0 else 2\n', '    dim = 2\n'),
+    ('padding: dark MPS sites are put in level 1 instead of |0>',
+     'emu_mps/utils.py', '            factor[:, 0, :] = torch.eye(bond_dimension, bond_dimension)',
+     '            factor[:, 1, :] = torch.eye(bond_dimension, bond_dimension)'),
+    ('padding: the bond dimension is not carried over a well-prepared site',
+     'emu_mps/utils.py', '            bond_dimension = mps_factors[factor_index].shape[2]\n',
+     '            bond_dimension = mps_factors[factor_index].shape[0]\n'),
+    ('padding: the identity MPO factor misses the last level',
+     'emu_mps/utils.py',
+     '            for level in range(dim):\n                factor[:, level, level, :] = torch.eye(bond_dimension, bond_dimension)',
+     '            for level in range(dim - 1):\n                factor[:, level, level, :] = torch.eye(bond_dimension, bond_dimension)'),
+    ('padding: the padded state is built from the unpadded factors',
+     'emu_mps/mps_backend_impl.py',
+     '                extended_mps_factors(\n                    normalized_state.factors,\n'
+     '                    self.well_prepared_qubits_filter,\n                ),',
+     '                normalized_state.factors,'),
+    ('padded centre: the reduced centre index is used as it is',
+     'emu_mps/mps_backend_impl.py',
+     '                orthogonality_center=get_extended_site_index(\n                    self.well_prepared_qubits_filter,\n'
+     '                    normalized_state.orthogonality_center,\n                ),',
+     '                orthogonality_center=normalized_state.orthogonality_center,'),
+    ('emu-sv: the columns of the interaction matrix of a bad atom are kept',
+     'emu_sv/sv_backend_impl.py', '                mat[:, indices] = 0.0\n', ''),
+    ('emu-sv: the phase of a bad atom is kept',
+     'emu_sv/sv_backend_impl.py', '            self.phi[:, self.well_prepared_qubits_filter] = 0.0\n', ''),
+    ('emu-sv: the drives of the GOOD atoms are zeroed',
+     'emu_sv/sv_backend_impl.py', '            self.omega[:, self.well_prepared_qubits_filter] = 0.0',
+     '            self.omega[:, ~self.well_prepared_qubits_filter] = 0.0'),
+    ('MPS.make refuses two sites',
+     'emu_mps/mps.py', '        if num_sites <= 1:\n            raise ValueError("For 1 qubit states, do state vector")',
+     '        if num_sites <= 2:\n            raise ValueError("For 1 qubit states, do state vector")'),
+]
